@@ -242,6 +242,168 @@ def d6(rep, dig):
     rep.floor("callers of emitSetFileIdName", n, 1)
 
 
+
+# --------------------------------------------------------------------------
+# D7: write-once function-static memo of a value that depends on the function's arguments
+# --------------------------------------------------------------------------
+def memo_digest(f):
+    base=f.unit.split("/")[-1]; out=[]
+    for name,fn in f.funcs.items():
+        if "body" not in fn or not fn.get("file","").endswith(base): continue
+        statics={}
+        for x in walk(fn["body"]):
+            if x["k"]=="DeclStmt":
+                for d in x.get("decls",[]):
+                    if d.get("static") and "const" not in (d.get("t") or ""): statics[d["n"]]=d
+        if not statics: continue
+        params=set(p["n"] for p in fn.get("params",[]))
+        # locals derived from params
+        derived=set(params)
+        grew=True
+        while grew:
+            grew=False
+            for x in walk(fn["body"]):
+                tgt=None; rhs=None
+                if x["k"]=="BinaryOperator" and x["op"]=="=":
+                    l=strip(x["c"][0])
+                    if l is not None and l["k"]=="DeclRefExpr": tgt,rhs=l["n"],x["c"][1]
+                elif x["k"]=="DeclStmt":
+                    for d in x.get("decls",[]):
+                        if d.get("init") is not None and not d.get("static") and d["n"] not in derived and any(y["k"]=="DeclRefExpr" and y["n"] in derived for y in walk(d["init"])):
+                            derived.add(d["n"]); grew=True
+                if tgt and tgt not in derived and tgt not in statics and any(y["k"]=="DeclRefExpr" and y["n"] in derived for y in walk(rhs)):
+                    derived.add(tgt); grew=True
+        par=common.parents(fn["body"])
+        for x in walk(fn["body"]):
+            if x["k"]=="BinaryOperator" and x["op"]=="=":
+                l=strip(x["c"][0])
+                if l is not None and l["k"]=="DeclRefExpr" and l["n"] in statics:
+                    dep=[y["n"] for y in walk(x["c"][1]) if y["k"]=="DeclRefExpr" and y["n"] in derived]
+                    # guarded by test that static unset?
+                    cur=x; guard=False
+                    while cur["id"] in par:
+                        p_=par[cur["id"]]
+                        if p_["k"]=="IfStmt" and any(y is cur for y in walk(p_["c"][1])):
+                            if any(y["k"]=="DeclRefExpr" and y["n"]==l["n"] for y in walk(p_["c"][0])): guard=True
+                        cur=p_
+                    out.append((name,x["l"],l["n"],sorted(set(dep)),guard,render(x["c"][1])[:50]))
+    return out
+
+
+MEMO_FROZEN = {
+    ("cmdline.c", "cmdOneResponse", "firstArgv"): "remembers the process's original argv so that only vectors allocated for response "
+                                                  "files are freed: invocation-wide by nature, one command line per process",
+}
+
+
+def d7(rep):
+    """A function-local `static` that is assigned, under a test that it is still unset, a value computed from the function's
+    parameters keeps the FIRST call's answer for the rest of the invocation.  When the parameters describe the file being
+    compiled (an EmitInfo, a file name, a unit), the second file of `aldor a.as b.as` gets the first file's value: its outputs
+    differ from `aldor b.as`.  Every such memo in the compiler is an instance; the confirmed invocation-wide ones are frozen with
+    the reason, any other is a violation."""
+    dig = common.map_units(common.compiler_units(), memo_digest, "compiler", all_trees=True)
+    n = 0
+    seen = set()
+    for u in sorted(dig):
+        base = u.split("/")[-1]
+        for fn, line, var, dep, guard, rhs in dig[u]:
+            if not dep or not guard:
+                continue
+            n += 1
+            key = "static-memo:%s:%s:%s" % (base, fn, var)
+            if (base, fn, var) in MEMO_FROZEN:
+                seen.add((base, fn, var))
+                rep.ok("D7", key, sample={"frozen": MEMO_FROZEN[(base, fn, var)]})
+            else:
+                rep.violation("D7", key, "%s:%d (%s)" % (base, line, fn),
+                              "the function-static `%s` is set once (only while unset) from `%s`, which depends on the arguments %s: "
+                              "every later call, for whichever file is then being compiled, gets the value computed for the first; "
+                              "with two sources in one invocation the second one's outputs carry the first one's value"
+                              % (var, rhs, ", ".join(dep)))
+    for k in MEMO_FROZEN:
+        if k not in seen:
+            rep.note("D7: frozen memo %s no longer exists" % (k,))
+    rep.floor("write-once static memos of argument-derived values", n, 1)
+
+
+# --------------------------------------------------------------------------
+# D8: set-once flags in the per-file output generators
+# --------------------------------------------------------------------------
+def latch_digest(f):
+    base=f.unit.split("/")[-1]
+    writes={}
+    decl={}
+    for n,v in f.vars.items():
+        if v.get("file","").endswith(base) and (v.get("static") or True):
+            decl[n]=("global",v)
+    for name,fn in f.funcs.items():
+        if "body" not in fn or not fn.get("file","").endswith(base): continue
+        for x in walk(fn["body"]):
+            if x["k"]=="DeclStmt":
+                for d in x.get("decls",[]):
+                    if d.get("static"): decl[name+"::"+d["n"]]=("local",d); 
+        loc={k.split("::")[1]:k for k in decl if k.startswith(name+"::")}
+        for x in walk(fn["body"]):
+            if x["k"]=="BinaryOperator" and x["op"]=="=":
+                l=strip(x["c"][0])
+                if l is not None and l["k"]=="DeclRefExpr":
+                    key=loc.get(l["n"]) or (l["n"] if l["n"] in decl else None)
+                    if key: writes.setdefault(key,[]).append((name,x["l"],const_value(x["c"][1])))
+            elif x["k"]=="CompoundAssignOperator" or (x["k"]=="UnaryOperator" and x["op"] in ("++","--","post++","post--","&")):
+                l=strip(x["c"][0])
+                if l is not None and l["k"]=="DeclRefExpr":
+                    key=loc.get(l["n"]) or (l["n"] if l["n"] in decl else None)
+                    if key: writes.setdefault(key,[]).append((name,x["l"],"op"))
+    out=[]
+    for k,ws in writes.items():
+        kind,d=decl[k]
+        t=(d.get("t") or "")
+        if t not in("int","Bool","BPack(Bool)","long","short","char","unsigned int") and "Bool" not in t: continue
+        vals=[w[2] for w in ws]
+        init=const_value(d.get("init")) if d.get("init") is not None else 0
+        if all(isinstance(v,int) for v in vals) and all(v!=init for v in vals):
+            out.append((k,t,init,ws[:3]))
+    return out
+
+
+LATCH_FROZEN = {
+    ("genlisp.c", "glimixedCase"): "set by the -L option handler (genLispOption): a command-line setting, the same for every file",
+    ("emit.c", "emitSelect::isInit"): "first call of the -F option handler clears the selection tables: command-line processing, before any file",
+    ("gencpp.c", "basicHasBeenUsrDefined"): "set by the -P option handler (cppOption): a command-line setting",
+}
+
+
+def d8(rep):
+    """A flag of a generator or printer that is set to a constant different from its initial value and never put back is a
+    latch: after the first file of an invocation that sets it, every later file is generated as if it had happened for that
+    file too ("this declaration has already been written").  `aldor -Fc a.as b.as` then writes a b.c that lacks a declaration
+    which `aldor -Fc b.as` writes.  Instances: every file-scope or function-static integer/Bool variable of the units that
+    generate per-file output, all of whose assignments store constants different from the initial value.  Command-line settings
+    are frozen with their reason; any other latch is a violation."""
+    gen = [u for u in common.compiler_units() if u in ("genc.c", "ccode.c", "genlisp.c", "gencpp.c", "genfoam.c", "emit.c") or
+           u.startswith(("java/", "gf_"))]
+    dig = common.map_units(gen, latch_digest, "compiler", all_trees=True)
+    n = 0
+    for u in sorted(dig):
+        base = u.split("/")[-1]
+        for var, t, init, ws in dig[u]:
+            n += 1
+            key = "generator-latch:%s:%s" % (base, var)
+            if (base, var) in LATCH_FROZEN:
+                rep.ok("D8", key, sample={"frozen": LATCH_FROZEN[(base, var)]})
+            else:
+                fn, line, val = ws[0]
+                rep.violation("D8", key, "%s:%d (%s)" % (base, line, fn),
+                              "`%s` starts as %s, is set to %s in %s and is never put back: once the first file of an invocation has "
+                              "set it, the generator treats every later file as if the event had happened for it as well (a "
+                              "declaration written 'already', an initialisation 'done'), so a file compiled second in a batch gets "
+                              "different -- here: incomplete -- output" % (var, init, val, fn))
+    rep.floor("generator units scanned for set-once flags", len(gen), 10)
+    if n == 0:
+        rep.ok("D8", "generator-latch:none")
+
+
 def run(tier, only=None):
     rep = common.Report("C08", tier, EXPLANATION)
     units = common.compiler_units()
@@ -387,6 +549,8 @@ def run(tier, only=None):
     rep.floor("monotone never-reset integer counters examined", nc, 15)
     d5(rep)
     d6(rep, dig)
+    d7(rep)
+    d8(rep)
     rep.assumptions += ["calls through function pointers are not followed in D3",
                         "lisort is the only sort routine applied to output-relevant data (no qsort in the compiler units)"]
     return rep
